@@ -144,7 +144,8 @@ class DL:
                     res.add(self.derives(fn, m.resolve_rvalue(payload), seen))
             if res == {"carrier"}:
                 return "carrier"
-            if res == {"carrier", "none"} and self.is_conversion(fn) and self._reads_carrier_discr(fn):
+            if res == {"carrier", "none"} and (self.is_conversion(fn) or self._none_under_carrier_switch(fn, l, seen)) and \
+                    self._reads_carrier_discr(fn):
                 # `match self.deadline { Some(d) => d.into_instant(), None => None }`: the None arm is the carrier's own None
                 return "carrier"
             for bad in ("none", "fresh", "unknown"):
@@ -172,6 +173,109 @@ class DL:
             return self.derives(fn, term[1], seen)
         return "unknown"
 
+    def derives_in(self, body, term, depth=0):
+        """derives() for a body that may be a closure of a carrier: a captured variable (`(*_1).N`, a slot of the
+        closure environment, anywhere inside the term: `(*(*_1).0).deadline`) is replaced by the operand the closure was
+        built with, and the result is classified in the parent."""
+        if body.kind != "Closure":
+            return self.derives(body, term)
+        parent = self.prog.fn(body.raw.get("closure_of") or "")
+        if parent is None or not parent.mir or depth > 4:
+            return "unknown"
+        pm = parent.mir
+        ops = None
+        for b in pm.blocks:
+            for s_ in b["stmts"]:
+                if s_["k"] == "assign" and s_["rv"]["k"] == "aggregate" and s_["rv"].get("ak") == "closure" and \
+                        s_["rv"].get("closure") == body.path:
+                    ops = s_["rv"]["ops"]
+        if ops is None:
+            return "unknown"
+        hit = [False]
+
+        def lift(t):
+            if isinstance(t, tuple) and t and t[0] == "field" and str(t[2]).isdigit():
+                base = t[1]
+                while isinstance(base, tuple) and base and base[0] in ("ref", "deref"):
+                    base = base[1]
+                if isinstance(base, tuple) and base and base[0] == "local" and base[2] == 1 and int(t[2]) < len(ops):
+                    hit[0] = True
+                    return pm.resolve_operand(ops[int(t[2])])
+            if isinstance(t, tuple):
+                return tuple(lift(x) if isinstance(x, (tuple, list)) else x for x in t)
+            if isinstance(t, list):
+                return [lift(x) for x in t]
+            return t
+
+        m = body.mir
+        t0 = term
+        # a local of the closure is looked through first (`let deadline = self.deadline;`)
+        ts = t0
+        while isinstance(ts, tuple) and ts and ts[0] in ("ref", "deref", "cast"):
+            ts = ts[1]
+        if isinstance(ts, tuple) and ts and ts[0] == "local" and isinstance(ts[2], int) and ts[2] > 1:
+            ds = m.defs().get(ts[2], [])
+            res = {self.derives_in(body, m.resolve_rvalue(p_), depth + 1) if k_ != "call" else "unknown" for _, _, k_, p_ in ds}
+            return "carrier" if res == {"carrier"} else "unknown"
+        lifted = lift(t0)
+        if not hit[0]:
+            return "unknown"
+        return self.derives_in(parent, lifted, depth + 1)
+
+    def carrier_switch_blocks(self, fn):
+        """blocks that end in a switch on the discriminant of a value derived from the carrier's deadline"""
+        memo = self.__dict__.setdefault("_csb", {})
+        if fn.path not in memo:
+            m = fn.mir
+            out = set()
+            memo[fn.path] = out
+            for bi, b in enumerate(m.blocks):
+                sw = b["term"]
+                if sw["k"] != "switch" or sw.get("discr", {}).get("k") not in ("copy", "move"):
+                    continue
+                for s_ in b["stmts"]:
+                    if s_["k"] == "assign" and s_["rv"]["k"] == "discr" and s_["p"]["l"] == sw["discr"]["p"]["l"]:
+                        if self.derives(fn, m.resolve_place(s_["rv"]["p"])) == "carrier":
+                            out.add(bi)
+        return memo[fn.path]
+
+    def _none_under_carrier_switch(self, fn, l, seen):
+        """every `None` stored into local l sits below a match on the carrier's own deadline (its None arm rewrapped)"""
+        m = fn.mir
+        sws = self.carrier_switch_blocks(fn)
+        if not sws:
+            return False
+        for bb, idx, kind, payload in m.defs().get(l, []):
+            cls = self._derives_call(fn, payload, seen | {l}) if kind == "call" else self.derives(fn, m.resolve_rvalue(payload), seen | {l})
+            if cls == "none" and not any(m.dominates(sb, bb) and sb != bb for sb in sws):
+                return False
+        return True
+
+    def inline_conversion(self, fn, sb):
+        """The switch at block sb only rewraps the deadline: every block between it and the point where its arms meet
+        again does nothing but move values and call deadline conversions."""
+        m = fn.mir
+        succ = [x for x in dict.fromkeys(m.succs(sb)) if m.blocks[x]["term"]["k"] != "unreachable"]
+        if len(succ) < 2:
+            return False
+        reaches = [m.reach_from([s_]) for s_ in succ]
+        common = set.intersection(*reaches)
+        region = set().union(*reaches) - common
+        if len(region) > 24:
+            return False
+        for b in region:
+            t = m.blocks[b]["term"]
+            if t["k"] == "call":
+                c = m.callee(t) or {}
+                p_ = c.get("path", "")
+                g = self.prog.fn(p_) if c.get("local") else None
+                if p_ in self.CONV_CALLEES or p_.startswith("deadline_support::") or (g is not None and self.is_conversion(g)):
+                    continue
+                return False
+            if t["k"] not in ("goto", "switch", "assert", "unreachable"):
+                return False
+        return True
+
     def _reads_carrier_discr(self, fn):
         m = fn.mir
         for b in m.blocks:
@@ -194,6 +298,8 @@ class DL:
         if not c:
             return "unknown"
         p = c["path"]
+        if p == DUR2DL and args and self.derives(fn, args[0], seen) == "carrier":
+            return "carrier"        # the duration is the payload of the carrier's own Deadline::Relative
         if p in (DUR2DL,) or p.endswith("::Instant::now") or p.endswith("Instant::checked_add"):
             return "fresh"
         if p in ("std::option::Option::<T>::and_then", "std::option::Option::<T>::map", "std::option::Option::<T>::copied",
@@ -251,7 +357,7 @@ def rule_C1(prog):
                 for i in pos:
                     r.instances += 1
                     term = bm.resolve_operand(t["args"][i])
-                    cls = d.derives(body, term) if body is fn else "unknown"
+                    cls = d.derives(body, term) if body is fn else d.derives_in(body, term)
                     ok = cls == "carrier"
                     r.ob(ok, "%s -> %s(deadline = %s): %s" % (path, c["path"].rsplit("::", 2)[-2] + "::" + c["path"].rsplit("::", 1)[-1],
                                                                term_str(term), cls))
@@ -382,8 +488,43 @@ def rule_C2(prog):
         fns = prog.find("text::Deadline::into_instant")
         r.instances += 1
         if not fns:
-            r.ob(False, "Deadline::into_instant not found")
-            r.find("text::Deadline::into_instant", "missing", "Deadline::into_instant not found")
+            # the conversion may be open-coded where it is used: `match self.deadline { Some(Deadline::Absolute(i)) => Some(i),
+            # Some(Deadline::Relative(d)) => duration_to_deadline(d), None => None }` -- same obligation, per arm
+            n_variants = len(prog.adts.get("text::Deadline", {"variants": []})["variants"])
+            found = False
+            for g in prog.user_fns():
+                if not g.mir or g.kind == "Closure" or not g.module.startswith("text"):
+                    continue
+                gm = g.mir
+                for l_, decl in enumerate(gm.locals):
+                    if not is_opt_of(decl["ty"], is_instant) or l_ <= gm.arg_count:
+                        continue
+                    defs = gm.defs().get(l_, [])
+                    if len(defs) < 2:
+                        continue
+                    variants, bad = set(), []
+                    for bb_, idx_, kind_, payload_ in defs:
+                        term = ("call", (gm.callee(payload_) or {}).get("path", "?"), [gm.expand(gm.resolve_operand(a)) for a in payload_["args"]]) \
+                            if kind_ == "call" else gm.expand(gm.resolve_rvalue(payload_))
+                        dc = []
+                        _mentions(term, lambda x: x[0] == "downcast" and x[2] in ("Absolute", "Relative") and dc.append(x[2]) and False)
+                        is_none = isinstance(term, tuple) and term and term[0] == "aggregate" and str(term[1]).endswith("Option::None")
+                        if dc:
+                            variants |= set(dc)
+                        elif not is_none:
+                            bad.append(term_str(term))
+                    if variants:
+                        found = True
+                        ok = not bad and len(variants) == n_variants
+                        r.ob(ok, "%s converts its Deadline inline: variants %s, other values %s" % (g.path, sorted(variants), bad))
+                        if not ok:
+                            r.find(g.path, "arm-drops-payload", "the inline Deadline conversion of %s has an arm whose value is not "
+                                   "built from that arm's payload: %s (payload variants used: %s of %d)" % (g.path, bad, sorted(variants), n_variants),
+                                   file=g.file, line=g.line)
+            if not found:
+                r.ob(False, "Deadline::into_instant not found")
+                r.find("text::Deadline::into_instant", "missing", "no conversion from the configured Deadline to an instant found "
+                       "(neither Deadline::into_instant nor an inline match on its variants)")
         else:
             fn = fns[0]
             m = fn.mir
@@ -439,6 +580,40 @@ def rule_C2(prog):
             for s in b["stmts"]:
                 if s["k"] == "assign" and s["p"]["l"] == 0 and s["rv"]["k"] == "use" and s["rv"]["op"].get("val") in ("const false", "false"):
                     false_on_none = True
+        # `deadline.map_or(false, |d| Instant::now() > d)` / `deadline.is_some_and(|d| Instant::now() > d)`
+        for i, b in enumerate(m.blocks):
+            t = b["term"]
+            if t["k"] != "call" or t["dest"]["l"] != 0:
+                continue
+            c = m.callee(t) or {}
+            pth = c.get("path", "")
+            if pth not in ("std::option::Option::<T>::map_or", "std::option::Option::<T>::is_some_and"):
+                continue
+            recv = m.resolve_operand(t["args"][0])
+            if not (isinstance(recv, tuple) and recv[0] == "local" and recv[2] == 1):
+                continue
+            if pth.endswith("map_or"):
+                dflt = t["args"][1]
+                if not (dflt.get("k") == "const" and dflt.get("val") in ("const false", "false")):
+                    continue
+            cps = [a.get("path") for a in c.get("args", []) if isinstance(a, dict) and a.get("k") == "closure"]
+            cf = prog.fn(cps[0]) if cps else None
+            if cf is None or not cf.mir:
+                continue
+            cm = cf.mir
+            for cb, ct in cm.calls():
+                cc = cm.callee(ct) or {}
+                if cc.get("trait") == "std::cmp::PartialOrd" and cc.get("method") in ("gt", "ge", "lt", "le") and ct["dest"]["l"] == 0:
+                    x0 = cm.expand(cm.resolve_operand(ct["args"][0]))
+                    x1 = cm.expand(cm.resolve_operand(ct["args"][1]))
+                    if cc["method"] in ("lt", "le"):
+                        x0, x1 = x1, x0
+                    x1s = x1
+                    while isinstance(x1s, tuple) and x1s and x1s[0] in ("ref", "deref"):
+                        x1s = x1s[1]
+                    if "now(" in term_str(x0) and isinstance(x1s, tuple) and x1s[0] == "local" and x1s[2] == 2:
+                        cmp_ok = True
+                        false_on_none = True
         consts_true = any(s["k"] == "assign" and s["p"]["l"] == 0 and s["rv"]["k"] == "use" and
                           s["rv"]["op"].get("val") in ("const true", "true") for b in m.blocks for s in b["stmts"])
         ok = cmp_ok and false_on_none and not consts_true
@@ -654,6 +829,87 @@ def rule_C3(prog):
                     r.find(path, "unreviewed-nest", "%s contains a depth>=2 comparison loop nest that is neither probed "
                            "nor listed as exempt (%s)" % (path, "; ".join(problems) or "no probe"),
                            file=fn.file, line=fn.line)
+        # the same nest written with iterator adapters: `rows.try_for_each(|i| { if deadline_exceeded(deadline) { return None }
+        # cols.for_each(|j| { .. compare .. }); Some(()) })` -- the outer closure is the body of the outer loop
+        STOPPING = {"try_for_each": ("None", "Err", "Break"), "try_fold": ("None", "Err", "Break"), "all": ("false",), "any": ("true",)}
+        for bb, t in m.calls():
+            c = m.callee(t) or {}
+            if c.get("trait") not in ("std::iter::Iterator", "std::iter::DoubleEndedIterator") or \
+                    c.get("method") not in ("try_for_each", "try_fold", "all", "any", "for_each", "fold"):
+                continue
+            cfs = [prog.fn(a.get("path", "")) for a in c.get("args", []) if isinstance(a, dict) and a.get("k") == "closure"]
+            cfs = [x for x in cfs if x is not None and x.mir]
+            if len(cfs) != 1:
+                continue
+            cf = cfs[0]
+            cm = cf.mir
+
+            def blk_cmp(b):
+                if _block_compares(prog, cf, b, comp):
+                    return True
+                tt = cm.blocks[b]["term"]
+                if tt["k"] == "call":
+                    cc = cm.callee(tt) or {}
+                    return any(isinstance(a, dict) and a.get("k") == "closure" and a.get("path") in comp for a in cc.get("args", []) or [])
+                return False
+            cmp_blocks = [b for b in range(cm.n) if blk_cmp(b)]
+            if not cmp_blocks:
+                continue
+            inner_loop = any(b2 for h2, b2 in cm.loops() if any(cb in b2 for cb in cmp_blocks))
+            inner_adapter = any(cm.blocks[b]["term"]["k"] == "call" and not _item_eq_call(cm.callee(cm.blocks[b]["term"])) for b in cmp_blocks)
+            if not (inner_loop or inner_adapter):
+                continue
+            cpath = prog.canon(path) if norm_path(path) not in PROBE_EXEMPT and norm_path(path) not in PROBE_TABLE else norm_path(path)
+            if cpath in PROBE_EXEMPT:
+                r.count("exempt_nests")
+                continue
+            r.instances += 1
+            seen_tab.add(path)
+            problems = []
+            good = None
+            for pb, pt in cm.calls():
+                if (cm.callee(pt) or {}).get("path") != PROBE:
+                    continue
+                term = cm.resolve_operand(pt["args"][0])
+                cls = d.derives_in(cf, term)
+                at_depth1 = not any(pb in b2 for h2, b2 in cm.loops())
+                dom = all(cm.dominates(pb, cb) for cb in cmp_blocks)
+                tgt = pt["target"]
+                sw = cm.blocks[tgt]["term"] if tgt is not None else None
+                leaves = False
+                true_tgt = None
+                if sw and sw["k"] == "switch" and sw["discr"].get("p", {}).get("l") == pt["dest"]["l"]:
+                    if sw["values"] == ["0"]:
+                        true_tgt = sw["otherwise"]
+                    elif "1" in sw["values"]:
+                        true_tgt = sw["targets"][sw["values"].index("1")]
+                    if true_tgt is not None:
+                        reach = cm.reach_from([true_tgt])
+                        stops = STOPPING.get(c.get("method"))
+                        rets = []
+                        for b2 in reach:
+                            for s_ in cm.blocks[b2]["stmts"]:
+                                if s_["k"] == "assign" and s_["p"]["l"] == 0 and not s_["p"]["proj"]:
+                                    rets.append(term_str(cm.resolve_rvalue(s_["rv"])))
+                        stopping = bool(stops) and bool(rets) and all(any(x in rv for x in stops) for rv in rets)
+                        leaves = not any(cb in reach for cb in cmp_blocks) and stopping
+                if cls != "carrier":
+                    problems.append("probe argument %s is %s, not the carrier's deadline" % (term_str(term), cls))
+                elif not at_depth1:
+                    problems.append("probe is inside an inner loop of the closure")
+                elif not dom:
+                    problems.append("probe does not dominate every comparison of the nest")
+                elif not leaves:
+                    problems.append("after the probe fires the closure does not stop the iteration (`%s` goes on, or comparisons remain reachable)" % c.get("method"))
+                else:
+                    good = (pb, true_tgt)
+            ok = good is not None
+            r.ob(ok, "%s: adapter nest `%s` at line %d (%d comparison sites in the closure): %s" % (
+                path, c.get("method"), t["line"], len(cmp_blocks), "probe in the closure stops the iteration" if ok else (problems or ["no probe in the closure"])))
+            if not ok:
+                r.find(path, "unprobed-nest" if cpath in PROBE_TABLE else "unreviewed-nest",
+                       "%s: the comparison nest driven by `%s` -- %s" % (path, c.get("method"), "; ".join(problems) or "no deadline_exceeded call in the closure"),
+                       file=fn.file, line=t["line"])
     seen_norm = {norm_path(x) for x in seen_tab} | {prog.canon(x) for x in seen_tab}
     for path in PROBE_TABLE:
         cands = [f for f in prog.fn_list if norm_path(f.path) == path] or prog.find(path)
@@ -776,6 +1032,12 @@ def rule_C5(prog):
                 if s["k"] != "assign":
                     continue
                 rv = s["rv"]
+                if rv["k"] == "discr" and is_dl_place(rv["p"]) and not conv and fn.path in d.carriers and d.inline_conversion(fn, i):
+                    # the same open-coded conversion inside a carrier: `match self.deadline { Some(Absolute(i)) => Some(i),
+                    # Some(Relative(d)) => duration_to_deadline(d), None => None }` -- the arms only rewrap the value
+                    r.instances += 1
+                    r.ob(True, "%s rewraps its deadline inline at line %d (arms only move values / call conversions)" % (fn.path, s["line"]))
+                    continue
                 if rv["k"] == "discr" and is_dl_place(rv["p"]) and conv:
                     # a conversion function may look at Some/None of the deadline it rewraps (an open-coded and_then)
                     r.instances += 1
